@@ -89,6 +89,9 @@ class Sizes:
             if isinstance(s, ast.Assign) and isinstance(s.targets[0], ast.Name):
                 local[s.targets[0].id] = s.value
                 continue
+            if isinstance(s, ast.Try) and all(h.body and isinstance(h.body[-1], ast.Raise) for h in s.handlers) and not s.finalbody:
+                # try: return <size> / except ...: raise ...   -> the size on the non-failing path
+                return self._size_body(list(s.body) + list(s.orelse) + body[i + 1:], cls, field, st)
             if isinstance(s, ast.If):
                 # if self.name in [...]: return A else: return B
                 t = s.test
